@@ -153,6 +153,8 @@ func (sc *serverConn) closeIdleConn() {
 		sc.logger.Printf("Connection is idle. Closing\n")
 	}
 	sc.closeOnce.Do(func() { close(sc.closer) })
+
+	verifTick(verifTickSrvIdle)
 }
 
 func (sc *serverConn) Handshake() error {
